@@ -225,6 +225,11 @@ REQUESTS = [
     (b"gemini://example.org//private//doc.gmi\r\n", "gemini-private-double-slash", True),
     (b"gemini://example.org/x/%2e%2e/private/doc.gmi\r\n", "gemini-private-encoded-dotdot", True),
     (b"titan://example.org/private/%fe%ff/../up.txt;size=5;mime=text/plain\r\nhello", "titan-private-bad-escape-detour", True),
+    (b"gemini://example.org/.%2Fprivate/doc.gmi\r\n", "gemini-private-dot-escaped-slash", True),
+    (b"gemini://example.org/%2Fprivate/doc.gmi\r\n", "gemini-private-leading-escaped-slash", True),
+    (b"gemini://example.org/private%2F..%2Fprivate/doc.gmi\r\n", "gemini-private-escaped-slash-dotdot", True),
+    (b"gemini://example.org/private/%2e/../doc.gmi\r\n", "gemini-private-escaped-dot-then-dotdot", True),
+    (b"titan://example.org/.%2Fprivate/up.txt;size=5;mime=text/plain\r\nhello", "titan-private-dot-escaped-slash", True),
     (b"http://example.org/\r\n", "invalid-scheme", False),
     (b"titan://example.org/up.txt;size=x\r\nhello", "titan-invalid", False),
 ]
